@@ -122,9 +122,12 @@ def driver_c(o, known_classes, witness_only=False):
     if o.get('known'): L.append('uint32_t %s(uint8_t *in);' % o['known'])
     L += ['struct verif_inb { uint8_t b[%d]; };' % n, 'struct verif_inb nondet_verif_inb(void);',
           'struct verif_inb verif_in;', 'uint8_t verif_out[%d];' % max(m, 1),
+          'static inline int64_t RD64(const uint8_t *b, int off) { int64_t v; memcpy(&v, b + off, 8); return v; }',
+          'static inline int32_t RD32(const uint8_t *b, int off) { int32_t v; memcpy(&v, b + off, 4); return v; }',
+          'static inline int16_t RD16(const uint8_t *b, int off) { int16_t v; memcpy(&v, b + off, 2); return v; }',
           'void verif_driver(void) {', '  verif_global_ctors();', '  verif_in = nondet_verif_inb();']
     for ca in o.get('cassume', []):
-        L.append('  __CPROVER_assume(%s);' % ca.replace('in[', 'verif_in.b['))
+        L.append('  __CPROVER_assume(%s);' % re.sub(r'\bin\b', 'verif_in.b', ca))
     if o.get('assume'):
         L.append('  __CPROVER_assume(%s(verif_in.b) != 0);' % o['assume'])
     if o.get('known') and known_classes:
@@ -146,6 +149,7 @@ extern "C" {
 %(decls)s
 }
 extern "C" void verif_symbolic_phase(void) {}
+extern "C" void verif_nogrow(void*) {}
 struct Ent { const char* name; int (*prop)(const uint8_t*, uint8_t*); int (*assume)(const uint8_t*); int (*known)(const uint8_t*); int in, out; };
 static Ent ents[] = {
 %(ents)s
@@ -375,6 +379,8 @@ def parse_cbmc(out):
         ins = {}
         for m in re.finditer(r'verif_in\.b\[(\d+)l?\]=(\d+)', t):
             ins[int(m.group(1))] = int(m.group(2))
+        for m in re.finditer(r'verif_in\.b=\{ ([^}]*) \}', t):
+            ins = {i: int(v.strip()) & 255 for i, v in enumerate(m.group(1).split(','))}
         if ins:
             n = max(ins) + 1
             f['inputs'] = bytes(ins.get(i, 0) for i in range(n)).hex()
